@@ -30,6 +30,8 @@ ASSUMPTIONS = [
 GRACE = 15
 L1 = b'</a>;rt="x"'
 L2 = b'</b>;if="y",</c>'
+L3 = b'</q>;title="say \\"hi\\"",</r>'       # a quoted-string with escaped quotes
+LINKS = {"L1": (L1, ["/a"]), "L2": (L2, ["/b", "/c"]), "L3": (L3, ["/q", "/r"])}
 RDP = ["resourcedirectory", ""]
 EPL = ["endpoint-lookup", ""]
 RSL = ["resource-lookup", ""]
@@ -37,8 +39,10 @@ RSL = ["resource-lookup", ""]
 OPS = [
     ("reg", "e1", None, 60, "L1", None), ("reg", "e1", None, 120, "L2", None), ("reg", "e1", "d1", None, "L1", None),
     ("reg", "e2", None, 60, "L2", None), ("reg", "e1", None, None, "L1", "x=1"),
+    # parameter values and link attributes that need quoting in a lookup result: a double quote, a trailing backslash
+    ("reg", "e2", None, 60, "L3", 'x=a"b'), ("reg", "e1", "d1", 60, "L1", "x=q\\"),
     ("badreg", "noep"), ("badreg", "lt=abc"), ("badreg", "twolt"), ("badreg", "rt=x"), ("badreg", "body"), ("badreg", "cf"),
-    ("upd", 0, "lt=120"), ("upd", 0, "x=2"), ("upd", 0, "ep=e9"), ("upd", 0, "lt=abc"), ("upd", 0, "body"), ("upd", 1, "lt=60"),
+    ("upd", 0, "lt=120"), ("upd", 0, "x=2"), ("upd", 0, "base=coap://[2001:db8::77]:1234"), ("upd", 0, "ep=e9"), ("upd", 0, "lt=abc"), ("upd", 0, "body"), ("upd", 1, "lt=60"),
     ("put", 0, "L2"), ("put", 0, "badbody"), ("put", 0, "L2+d=zz"),
     ("del", 0), ("del", 1), ("upd", "nowhere", "lt=60"),
     ("t", "before"), ("t", "after"),
@@ -122,7 +126,7 @@ def apply(st, op):
         _, epn, d, lt, links, extra = op
         q = ["ep=" + epn] + (["d=" + d] if d else []) + (["lt=%d" % lt] if lt else []) + ([extra] if extra else [])
         src = 1 if epn == "e1" else 2
-        r = request(st, POST, RDP, q, L1 if links == "L1" else L2, 40, ep=src)
+        r = request(st, POST, RDP, q, LINKS[links][0], 40, ep=src)
         key = (epn, d)
         loc = tuple(r.opt.location_path) if hasattr(r, "opt") else None
         if not (hasattr(r, "code") and int(r.code) == 65 and loc):
@@ -138,7 +142,7 @@ def apply(st, op):
             if d:
                 params["d"] = [d]
             if extra:
-                k, v = extra.split("=")
+                k, v = extra.split("=", 1)
                 params[k] = [v]
             st.model[key] = {"loc": loc, "params": params, "links": links, "lt": lt or 90000, "written": now,
                              "base": "coap://[2001:db8::%x]:40000" % src}
@@ -192,9 +196,11 @@ def apply(st, op):
                 else:
                     if int(r.code) != 68:
                         viol(st, "valid-update-refused", "2.04", repr(r), "cli/rd.py:RegistrationResource.render_post", "upd")
-                    k, v = arg.split("=")
+                    k, v = arg.split("=", 1)
                     if k == "lt":
                         m["lt"] = int(v)
+                    elif k == "base":
+                        m["base"] = v        # an explicit base replaces the one derived from the source address, for every link
                     else:
                         m["params"][k] = [v]
                     m["written"] = now
@@ -260,7 +266,7 @@ def check_lookups(st):
         viol(st, "endpoint-lookup", sorted(want), sorted(got), "cli/rd.py:EndpointLookupInterface", kind)
     wantr = []
     for key, m in lv.items():
-        for href in (["/a"] if m["links"] == "L1" else ["/b", "/c"]):
+        for href in LINKS[m["links"]][1]:
             wantr.append(m["base"] + href)
     gotr = [h for h, at in ress]
     if sorted(gotr) != sorted(wantr):
